@@ -36,6 +36,9 @@ CLAIMED = {
  "C14": ("guard-fact dominance of the backend dispatcher by the limiter, return-case analysis of the limiter, clamp recognition at the limiter's construction, must-lockset analysis of the TOTP spacing section, discarded-result and write-back rules for the lock-out record",
          "Every password backend lookup is dominated by a consumed limiter token (Allow() true) and the excess is answered 429; the limiter is built once from clamped configuration; the TOTP validator reads/tests/updates the last-check time in one uninterrupted critical section with a constant >= 2 s and tests spacing and lock-out before any secret use; lock-out bookkeeping is stored, not discarded.",
          "The quantitative rate (x/time/rate) and timing are trusted / not decided; sync.Mutex provides exclusion.", "DESIGN.md §3 C14"),
+ "C15": ("type-structure check of the gob-encoded profile, receiver-provenance and ordering analysis of the synchronisation transaction, constant-SQL inspection (DML through Query, table names), guard-fact dominance of every profile save by 'not from cache', send-dominance in the storage readers",
+         "All module structs reachable from the stored profile have only exported fields; the cache synchronisation is exactly one destination transaction through which every statement runs, with deferred rollback and Commit last; no DML is issued through Query/QueryRow; every inserted table is emptied in the same transaction first; every save of a loaded profile is dominated by fromCache == false; storage readers answer only after a successful Prepare so that an unreachable primary falls back to the cache.",
+         "SQL engine atomicity, crash points and byte-identical round trips are not decided; database/sql and encoding/gob are trusted.", "DESIGN.md §3 C15"),
  "C12": ("dominance of the token-minting calls by the conjunction of code/client/expiry/redirect/type facts, decision-structure classification of the client-authentication flag, shape check of the PKCE verifier, store-provenance of token fields",
          "Both minting calls of the token endpoint are dominated on all paths by the verified code, client authentication, client==code.sub, strict expiry, equal redirect_uri and the code type; the authentication flag is true only from PKCE (secret-less client) or a non-empty secret; the PKCE verifier compares against the challenge decrypted from the same code; token/code/userinfo fields have the stated provenance (field-store analysis).",
          "Trusts go-jose and JSON encoding. Field provenance is judged per store into the token structs in the current source.", "DESIGN.md §3 C12"),
